@@ -237,7 +237,7 @@ Proof.
         apply (var_fold_errors vinfo acc v0 H).
     + (* primary *)
       cbn [Parser.p_primary ParserInc.i_primary]. eta_qs.
-      apply (QS_alt GoodN); [sim_auto | apply QS_map; eapply QS_impl; [|apply QS_intlit_none]; auto |].
+      apply (QS_alt GoodN); [sim_auto | apply QS_map; apply (QS_impl GoodN _ (fun _ => True)); [auto | apply QS_intlit_none] |].
       apply (QS_alt GoodN); [sim_auto | apply QS_map; exact IHvar |].
       apply (QS_bindk GoodN
                (fun r : token * info * (option expr * option token) * info =>
